@@ -19,9 +19,9 @@
             at the first present member that has no checker of its own),
             CHOICE_constraint, SET_OF_constraint (every element);
           - where the SIZE of a SEQUENCE OF / SET OF is checked at all: only in the
-            memb_*_constraint_N function of a member slot; the descriptor of an OF
-            type (top level, or reached through a type reference) carries the bare
-            walker;
+            memb_*_constraint_N function of a member slot and in the checker generated
+            for a type DEFINED AS A REFERENCE (`T2 ::= T1`); the descriptor of a type
+            defined as `SEQUENCE (SIZE(..)) OF` itself carries the bare walker;
           - _asn_i_ctfailcb's clamp of the message length.
    The algebra [cty] is this file's own (Rt/Types.v has single ranges only and no
    notion of "constraint written at the member"); [of_ty] translates Rt.Types.ty.
@@ -46,7 +46,10 @@ Inductive cty :=
 | CSeq (ms : list cty)             (* members; optional ones are COpt *)
 | CSeqOf (sz : parts) (e : cty)    (* SEQUENCE OF and SET OF: one checker (SEQUENCE_OF_constraint is SET_OF_constraint) *)
 | CChoice (alts : list cty)
-| CRef (t : cty)                   (* a reference to a named type: no constraint is written at the point of use *)
+| CRef (gen : bool) (t : cty)      (* a reference to a named type (no constraint written at the point of use).
+                                      gen: that named type is itself defined as a reference (`T2 ::= T1`), so its
+                                      descriptor carries a generated checker built from the combined constraints;
+                                      otherwise the descriptor carries what its constructor gives (for an OF: the bare walker) *)
 | COpt (t : cty).
 
 (* ------------------------------------------------------------------ Spec *)
@@ -90,7 +93,7 @@ Fixpoint satisfies (t : cty) (v : val) {struct t} : bool :=
   | CSeq ms, VSeq vs => all2 satisfies ms vs
   | CSeqOf sz e, VList vs => sat_size sz (zlength vs) && forallb (satisfies e) vs
   | CChoice alts, VChoice i v' => pick satisfies false v' alts i
-  | CRef t', _ => satisfies t' v
+  | CRef _ t', _ => satisfies t' v
   | COpt _, VNone => true
   | COpt t', VSome v' => satisfies t' v'
   | _, _ => false
@@ -275,7 +278,7 @@ Fixpoint chk (t : cty) (slot : bool) (v : val) {struct t} : res :=
         end
       else walk_elems (chk e true) vs
   | CChoice alts, VChoice i v' => pick (fun a x => chk a true x) (RFail WNoAlt) v' alts i
-  | CRef t', _ => chk t' false v
+  | CRef g t', _ => chk t' g v
   | COpt _, VNone => ROk
   | COpt t', VSome v' => chk t' slot v'
   | _, _ => RFail WShape
@@ -330,7 +333,7 @@ Fixpoint safe (t : cty) (slot : bool) {struct t} : bool :=
   | CSeq ms => own_but_last ms && forallb (fun m => safe m true) ms
   | CSeqOf sz e => size_safe sz && (slot || negb (nonnil sz)) && safe e true
   | CChoice alts => forallb (fun a => safe a true) alts
-  | CRef t' => safe t' false
+  | CRef g t' => safe t' g
   | COpt t' => safe t' slot
   end.
 
@@ -348,7 +351,7 @@ Fixpoint repr (t : cty) (v : val) {struct t} : bool :=
   | CSeq ms, VSeq vs => all2 repr ms vs
   | CSeqOf _ e, VList vs => forallb (repr e) vs
   | CChoice alts, VChoice i v' => pick repr true v' alts i
-  | CRef t', _ => repr t' v
+  | CRef _ t', _ => repr t' v
   | COpt t', VSome v' => repr t' v'
   | _, _ => true
   end.
